@@ -10,7 +10,7 @@ import (
 
 func init() {
 	register(&propCheck{id: "C01", needRoot: true, run: checkC01,
-		explanation: "Decided statically: (0) shared clauses — Remove changes the working state only after the key was found (DOM); every field Set/Remove can write is reset on every path of Rollback (EFFECT frame rule); SaveNode always refreshes the node cache entry of a re-used node key (PASS); the merge of persisted and uncommitted keys and the overlay range filter are decided over the ordering domain lt/eq/gt × direction (ORDER); (1) DOM — in the write path (Set → set) the failing edge of the `value == nil` test leaves with a non-nil error and its passing edge dominates every effect on the working state (store of the working root, overlay update, recursive insert); (2) OWN/FLOW — the configuration values FlushThreshold, Sync, the flusher's threshold and the cache capacity are READ only inside the flusher, the cache, nodeDB.Commit and the constructors, and no value data-derived from them is returned or stored outside those owners, so no read answer can be computed from them. Added in the build round: decision tables for insertion, lookup (by key / by rank) and removal (TABLE); indexed iteration only for a tree at the latest version (DOM-index-iter-guard); lastSaved follows every successful commit / load (PASS-last-saved). NOT decided: equality of every read with the versioned-map model over histories (value-level), nor independence from fast-index setting / initial version / backend (those options are meant to select code paths)."})
+		explanation: "Decided statically: (0) shared clauses — Remove changes the working state only after the key was found (DOM); every field Set/Remove can write is reset on every path of Rollback (EFFECT frame rule); SaveNode always refreshes the node cache entry of a re-used node key (PASS); the merge of persisted and uncommitted keys and the overlay range filter are decided over the ordering domain lt/eq/gt × direction (ORDER); (1) DOM — in the write path (Set → set) the failing edge of the `value == nil` test leaves with a non-nil error and its passing edge dominates every effect on the working state (store of the working root, overlay update, recursive insert); (2) OWN/FLOW — the configuration values FlushThreshold, Sync, the flusher's threshold and the cache capacity are READ only inside the flusher, the cache, nodeDB.Commit and the constructors, and no value data-derived from them is returned or stored outside those owners, so no read answer can be computed from them. Added in the build round: decision tables for insertion, lookup (by key / by rank) and removal (TABLE); indexed iteration only for a tree at the latest version (DOM-index-iter-guard); lastSaved follows every successful commit / load (PASS-last-saved). NOT decided: equality of every read with the versioned-map model over histories (value-level), nor independence from fast-index setting / initial version / backend (those options are meant to select code paths). Rules added in the later seeding rounds (each listed with what it decides in this file's rule table) are described in DESIGN.md §3 \"Third and fourth seeding rounds\" and Appendix C3–C5."})
 }
 
 func checkC01(c *Ctx) {
